@@ -7,7 +7,7 @@ package snaps
 //
 //	jsonsnap  doc/form/json  -> validateJSON + takeJSONSnapshot
 //	  op jsonsnap doc=<hex> width=<n> indent=<hex> sort=<0|1>
-//	  jsonsnap <idx> valid=<0|1> text=<hex|->
+//	  jsonsnap <idx> valid=<0|1> text=<hex|-> std=<hex|-|!>
 //	  (doc in the op line = the bytes validateJSON returned when valid, else the bytes it
 //	   rejected: the input, or the Go string when the input value is a string)
 //
@@ -46,6 +46,9 @@ func vJSONSnap(r *vRunner, o vOp) {
 	// the model is handed the input as the CALLER gave it: text as is, a Go value as json.Marshal(value) computed
 	// here (not by the library); a value that cannot be marshalled is handed over as an invalid text
 	seen := doc
+	// std: what the library stores for the value's standard JSON encoding handed over as []byte ("the same text for all
+	// three" input forms) - only for Go-value inputs
+	std := "-"
 	switch v := input.(type) {
 	case string:
 		seen = []byte(v)
@@ -53,6 +56,11 @@ func vJSONSnap(r *vRunner, o vOp) {
 	default:
 		if mj, merr := json.Marshal(v); merr == nil {
 			seen = mj
+			if j2, e2 := validateJSON(append([]byte{}, mj...)); e2 == nil {
+				std = vhex([]byte(takeJSONSnapshot(cfg, append([]byte{}, j2...))))
+			} else {
+				std = "!"
+			}
 		} else {
 			seen = []byte("!unmarshalable")
 		}
@@ -60,11 +68,11 @@ func vJSONSnap(r *vRunner, o vOp) {
 	fmt.Fprintf(r.w, "op jsonsnap doc=%s width=%d indent=%s sort=%s\n",
 		vhex(seen), width, vhex([]byte(indent)), vb(sortKeys))
 	if err != nil {
-		fmt.Fprintf(r.w, "jsonsnap %d valid=0 text=-\n", r.idx)
+		fmt.Fprintf(r.w, "jsonsnap %d valid=0 text=- std=%s\n", r.idx, std)
 		return
 	}
 	text := takeJSONSnapshot(cfg, append([]byte{}, j...))
-	fmt.Fprintf(r.w, "jsonsnap %d valid=1 text=%s\n", r.idx, vhex([]byte(text)))
+	fmt.Fprintf(r.w, "jsonsnap %d valid=1 text=%s std=%s\n", r.idx, vhex([]byte(text)), std)
 }
 
 // the text sjson inserts for a placeholder value (non in-place code path)
